@@ -4,6 +4,9 @@ import (
 	"fmt"
 	"math/rand"
 	"os"
+	"strconv"
+	"strings"
+	"unicode"
 	"unicode/utf8"
 )
 
@@ -80,6 +83,7 @@ func runSelfTest() {
 		}
 	}
 	bad += strSelfTest(rng)
+	bad += strModelSelfTest(rng)
 	if bad > 0 {
 		fmt.Fprintf(os.Stderr, "selftest: %d mismatches\n", bad)
 		os.Exit(2)
@@ -144,6 +148,68 @@ func strSelfTest(rng *rand.Rand) int {
 		chk("less", fmt.Sprint(evalTerm(less, model, memo) == 1), fmt.Sprint(want1 < want2))
 		if ww < len(want1+want2) {
 			chk("select", string([]byte{byte(evalTerm(sel, model, memo))}), string((want1 + want2)[ww]))
+		}
+	}
+	return bad
+}
+
+// strModelSelfTest: strContainsConst, strValidUTF8 and isPrintTerm against the library.
+func strModelSelfTest(rng *rand.Rand) int {
+	bad := 0
+	base := symStr("sm", 5)
+	lenV := NewVarRange("sm.len", 8, 0, 5)
+	s := base.Slice(BV(0, 64), ZExt(lenV, 64))
+	contains := strContainsConst(s, `"""`)
+	valid := strValidUTF8(s)
+	alphabet := []byte{'"', '"', '"', 'a', 0x80, 0xBF, 0xC2, 0xE0, 0xA0, 0xED, 0x9F, 0xF0, 0x90, 0xF4, 0x8F, 0xC0, 0xF5, 0xFF, 0x7F}
+	for i := 0; i < 100000; i++ {
+		l := rng.Intn(6)
+		model := map[string]uint64{"sm.len": uint64(l)}
+		bs := make([]byte, 5)
+		for j := range bs {
+			if rng.Intn(3) == 0 {
+				bs[j] = byte(rng.Intn(256))
+			} else {
+				bs[j] = alphabet[rng.Intn(len(alphabet))]
+			}
+			model[fmt.Sprintf("sm[%d]", j)] = uint64(bs[j])
+		}
+		gs := string(bs[:l])
+		memo := map[*Term]uint64{}
+		if (evalTerm(contains, model, memo) == 1) != strings.Contains(gs, `"""`) {
+			bad++
+			if bad < 10 {
+				fmt.Fprintf(os.Stderr, "contains model mismatch on %q\n", gs)
+			}
+		}
+		if (evalTerm(valid, model, memo) == 1) != utf8.ValidString(gs) {
+			bad++
+			if bad < 10 {
+				fmt.Fprintf(os.Stderr, "ValidString model mismatch on %q\n", gs)
+			}
+		}
+	}
+	rv := NewVar("sm.r", 32)
+	p1, p2 := isPrintTerm(rv, false), isPrintTerm(rv, true)
+	for i := 0; i < 40000; i++ {
+		var x int32
+		switch rng.Intn(4) {
+		case 0:
+			x = int32(rng.Intn(0x3000))
+		case 1:
+			x = int32(rng.Intn(0x110000 + 100))
+		case 2:
+			x = int32(0xE0000 + rng.Intn(0x300))
+		default:
+			x = int32(rng.Uint32())
+		}
+		model := map[string]uint64{"sm.r": uint64(uint32(x))}
+		memo := map[*Term]uint64{}
+		if (evalTerm(p1, model, memo) == 1) != strconv.IsPrint(rune(x)) || (evalTerm(p2, model, memo) == 1) != unicode.IsPrint(rune(x)) {
+			bad++
+			if bad < 10 {
+				fmt.Fprintf(os.Stderr, "IsPrint model mismatch on %x\n", x)
+			}
 		}
 	}
 	return bad
